@@ -48,6 +48,10 @@ func main() {
 		concChild(spec) // the re-executed child of the concurrency family
 		return
 	}
+	if spec := os.Getenv(shapeEnv); spec != "" {
+		shapeChild(spec) // the re-executed child of the shape family
+		return
+	}
 	Main("c12", run)
 }
 
@@ -355,7 +359,7 @@ func inputTerm(c *lcase) string {
 		implTerm(c.Impl), scTerm(c.Sc), nTerm(c.N), bTerm(c.B), []string{"CCNone", "CCBad", "CCGood"}[c.UM])
 }
 
-const prelude = `From NV Require Import Base C12_Model.
+const prelude = `From NV Require Import Base C12_Registry C12_Model.
 Open Scope string_scope.
 Definition sc0 := mk_sc SigOK PAbsent false false false false false false false false RevOK (PResp true (Some true) (Some true)) true false true false false false.
 Definition n0 := mk_nreq false 1 RefOK false false false [].
@@ -1391,6 +1395,26 @@ func run(a *Args) error {
 		w.Count("observation", obsKind(obs))
 		w.Count("construction", construction(c))
 	})
+	// the witnesses of C12_failure_outcome_notation_refuted on the real code: a strict statement is
+	// selected, every signature fails; notation.Verify / VerifyBlob return no outcome, verifier.Verify does
+	{
+		bad := okSc()
+		bad.Sig = 1
+		strictDoc := docCfg{Kind: 2, Level: "strict"}
+		for _, c := range []lcase{
+			{Fam: "refuted", Entry: "NVerify", OCI: strictDoc, Blob: strictDoc, PM: pmCfg{Kind: 0}, Impl: implCfg{Kind: 1}, Sc: okSc(), N: nreqCfg{Max: 3, Ref: 2, Items: []scCfg{bad, bad}}},
+			{Fam: "refuted", Entry: "NVerifyBlob", OCI: strictDoc, Blob: strictDoc, PM: pmCfg{Kind: 0}, Impl: implCfg{Kind: 1}, Sc: bad},
+			{Fam: "refuted", Entry: "Verify", OCI: strictDoc, Blob: strictDoc, PM: pmCfg{Kind: 0}, Impl: implCfg{Kind: 1}, Sc: bad},
+		} {
+			c := c
+			normalize(&c)
+			emit(&c)
+		}
+	}
+	// registry family: the size caps of registry/repository.go (own random stream: later families keep theirs)
+	genRegistry(a, w, &id)
+	// shape family (exploration, own child process): systematic structurally valid documents
+	runShapes(a, w, &id)
 	w.Set("partial", "the theorems cover the nil-ability lattice of notation-go's own structures (configuration x level x entry point x what the dependencies answer); crash-freedom of the third-party decoders (notation-core-go JWS/COSE, encoding/json, fxamacker/cbor, crypto/x509, oras-go, tspclient-go) on arbitrary bytes is a runtime fact that is explored (exploration_* keys), not proved")
 	w.Set("part1", "nil-ability lattice: evaluated in Coq against C12_Model (model = implementation, and the oracle spec_ok on the implementation's observation)")
 	if err := explore(a, rng, w, id); err != nil {
